@@ -244,6 +244,7 @@ class Calls(Interp):
                 self.assume_clause(cl, spec_env=env2, old=pre, env={})
             if c.labels.get("touch_result") and isinstance(res, VObj):
                 self.touch(TObj(), res.t)   # the result is a likely witness of existential goals
+            self.step_invariant(top, c, callee_name, "returned")
             return res
         e = labels[i]
         exc = VExc(e.rstrip("+"), [], exact=not e.endswith("+"))
@@ -251,7 +252,23 @@ class Calls(Interp):
         env3["exc"] = VObj(self.box(exc))
         for cl in c.raises.get(e, []):
             self.assume_clause(cl, spec_env=env3, old=pre, env={})
+        self.step_invariant(top, c, callee_name, "raised " + e.rstrip("+"))
         raise PyRaise(exc)
+
+    step_count = 0
+
+    def step_invariant(self, top, c, callee_name, outcome):
+        """Crash invariant: the function under verification declares clauses that must hold in EVERY intermediate state, i.e. right after
+        each outcome (normal or exceptional) of each callee that modifies anything (its contract has a `modifies` clause) -- a crash leaves
+        exactly such a state behind."""
+        inv = top.labels.get("step_invariant") if top is not None else None
+        if not inv or not c.modifies or self.spec_mode:
+            return
+        self.step_count += 1
+        params = getattr(self, "top_params", {})
+        for j, cl in enumerate(inv):
+            self.prove_clause("crash-invariant/%d after #%d %s %s" % (j, self.step_count, callee_name, outcome), cl, kind="crash-invariant",
+                              spec_env=dict(params), old=self.old_state, env={})
 
     def havoc_modifies(self, c, binding):
         for path in c.modifies:
